@@ -33,6 +33,10 @@ pub enum FOp {
     Remove(u8, usize, usize, usize),
     /// variant, index, window
     Sort(u8, usize, Option<((usize, usize), (usize, usize))>),
+    /// Clone::clone_from from a source of the given shape
+    CloneFrom(usize, usize),
+    /// op 0 remove_row, 2 remove_col; index; consumption 0 nth(1), 1 nth_back(1), 2 skip(1).step_by(2), 3 rev().skip(1)
+    RemoveVia(u8, usize, u8),
 }
 
 pub struct St {
@@ -154,6 +158,30 @@ pub fn exec(op: &FOp, c: usize, r: usize, st: &mut St) {
                 }
             }
         }
+        FOp::CloneFrom(c2, r2) => {
+            let src = build(*c2, *r2, false);
+            st.t.as_mut().unwrap().clone_from(&src);
+        }
+        FOp::RemoveVia(which, i, mode) => {
+            let t = st.t.as_mut().unwrap();
+            macro_rules! via {
+                ($d:expr) => {{
+                    let mut d = $d;
+                    match mode {
+                        0 => st.held.extend(d.nth(1)),
+                        1 => st.held.extend(d.nth_back(1)),
+                        2 => st.held.extend(d.by_ref().skip(1).step_by(2)),
+                        _ => st.held.extend(d.by_ref().rev().skip(1)),
+                    }
+                    drop(d);
+                }};
+            }
+            if *which == 0 {
+                via!(t.remove_row(*i))
+            } else {
+                via!(t.remove_col(*i))
+            }
+        }
         FOp::Sort(v, i, w) => {
             let t = st.t.as_mut().unwrap();
             let i = *i;
@@ -259,6 +287,19 @@ pub fn ops_for(c: usize, r: usize) -> Vec<FOp> {
         }
         v.push(FOp::Remove(3, 0, f, b));
     }
+    for (c2, r2) in [(c, r), (r, c), (0, 0), (c + 1, r.max(1)), (1, 1), (c * r, 1), (c, r.saturating_sub(1))] {
+        if (c2 == 0) == (r2 == 0) {
+            v.push(FOp::CloneFrom(c2, r2));
+        }
+    }
+    for mode in 0..4u8 {
+        for i in 0..r {
+            v.push(FOp::RemoveVia(0, i, mode));
+        }
+        for i in 0..c {
+            v.push(FOp::RemoveVia(2, i, mode));
+        }
+    }
     let mut wins: Vec<Option<((usize, usize), (usize, usize))>> = vec![None];
     if c >= 2 {
         wins.push(Some(((1, 0), (c, r))));
@@ -328,7 +369,7 @@ impl Prop for C11P {
     }
     fn rule(&self) -> String {
         "operations that run caller code, on TooDee<Tracked> of every shape in the bound, exact and spare capacity: new (Default), init/fill/clone/TooDee::from(view) of every window/clone_from_slice/clone_from_toodee on the array and on windows (Clone, and Drop of overwritten cells), \
-         insert_row/push_row/insert_col/push_col at every index from a custom iterator whose len/next/next_back are caller code (honest, and lying: len-1, len+1, 0, usize::MAX/2+1, usize::MAX), remove_row/remove_col/pop_row/pop_col at every index with every front/back consumption split (Drop of undrained elements inside the drain's destructor), clear, indexed replacement and drop (Drop), \
+         insert_row/push_row/insert_col/push_col at every index from a custom iterator whose len/next/next_back are caller code (honest, and lying: len-1, len+1, 0, usize::MAX/2+1, usize::MAX), remove_row/remove_col/pop_row/pop_col at every index with every front/back consumption split and through nth / nth_back / skip+step_by / rev+skip (Drop of skipped and undrained elements), clear, indexed replacement and drop (Drop), \
          all eleven sorts at every valid index on the array and on windows (comparator / key function / Ord::cmp). \
          For each instance: a fault-free run counts the M calls into caller code; then for every k < M the k-th call panics and the panic is caught. After every run (faulted or not): shape invariant; every reachable cell is live, canary-valid and pairwise distinct; then all cells are read through Index/rows/cells/col, two cells replaced, a row and a column pushed, inserted, removed and popped, the array dropped, everything held by the harness dropped; no double drop, no drop of a never-constructed value (leaks allowed), guard allocator clean. \
          A case is (shape, capacity, operation instance, k); non-trivial = the fault fired (k-th call reached); distinct by the tuple. Thorough tier: the whole history is re-executed for every (first fault k1, second operation from a menu of 7, second fault k2 or none), i.e. two-fault histories are enumerated exhaustively over that menu."
